@@ -26,29 +26,46 @@ class Doc:
         self.objs[r.num] = v
 
 
+# filters by short name: (PDF name, encoder); a chain is written "a+b" = /Filter [a b] (a is undone first)
+def _lzw(data):
+    return codecs.lzw_encode(data)
+
+
+ENCODERS = {
+    "flate": ("FlateDecode", lambda b: zlib.compress(b)),
+    "hex": ("ASCIIHexDecode", lambda b: codecs.hex_encode(b)),
+    "a85": ("ASCII85Decode", lambda b: codecs.a85_encode(b)),
+    "rle": ("RunLengthDecode", lambda b: codecs.rle_encode(b)),
+    "lzw": ("LZWDecode", _lzw),
+    # image codecs the oracle does not undo: the bytes are what they are (a decoder may refuse them)
+    "dct": ("DCTDecode", lambda b: b"\xff\xd8\xff\xe0\x00\x10JFIF\x00" + b + b"\xff\xd9"),
+    "jpx": ("JPXDecode", lambda b: b"\x00\x00\x00\x0cjP  \r\n\x87\n" + b),
+}
+# legacy spellings of the chains used since the first version
+ALIASES = {"flate+a85": "a85+flate"}
+TEXT_FILTERS = ["none", "none", "flate", "hex", "a85", "rle", "lzw", "a85+flate", "hex+flate", "a85+lzw", "hex+rle", "a85+hex", "hex+a85+flate"]
+IMAGE_FILTERS = ["none", "flate", "hex", "a85", "rle", "lzw", "a85+flate", "hex+lzw", "a85+hex", "dct", "a85+dct", "hex+dct", "rle+dct", "jpx", "hex+jpx"]
+
+
 def enc_stream(rng, d, data, filt=None):
-    """a stream whose data is stored under `filt` (None: random choice among the oracle's encoders)"""
+    """a stream whose data is stored under `filt` (None: random choice among the oracle's encoders);
+    `filt` = "none" | name | "a+b+c" (decoding order)"""
     if filt is None:
-        filt = rng.choice(["none", "none", "flate", "hex", "a85", "rle", "flate+a85"])
+        filt = rng.choice(TEXT_FILTERS)
+    filt = ALIASES.get(filt, filt)
     d = dict(d)
     if filt == "none":
         return Stream(d, data)
-    if filt == "flate":
-        d["Filter"] = Name("FlateDecode")
-        return Stream(d, zlib.compress(data))
-    if filt == "hex":
-        d["Filter"] = Name("ASCIIHexDecode")
-        return Stream(d, codecs.hex_encode(data))
-    if filt == "a85":
-        d["Filter"] = [Name("ASCII85Decode")]
-        return Stream(d, codecs.a85_encode(data))
-    if filt == "rle":
-        d["Filter"] = Name("RunLengthDecode")
-        return Stream(d, codecs.rle_encode(data))
-    if filt == "flate+a85":
-        d["Filter"] = [Name("ASCII85Decode"), Name("FlateDecode")]
-        return Stream(d, codecs.a85_encode(zlib.compress(data)))
-    raise ValueError(filt)
+    names = filt.split("+")
+    for n in reversed(names):
+        data = ENCODERS[n][1](data)
+    pdfnames = [Name(ENCODERS[n][0]) for n in names]
+    # a single filter as a name or (a85: as it always was) a one-element array; chains as arrays
+    if len(pdfnames) == 1 and names[0] != "a85":
+        d["Filter"] = pdfnames[0]
+    else:
+        d["Filter"] = pdfnames
+    return Stream(d, data)
 
 
 def rnd_bytes(rng, n):
@@ -111,7 +128,9 @@ def make_image(doc, rng):
         sm = doc.add(enc_stream(rng, {"Type": Name("XObject"), "Subtype": Name("Image"), "Width": w, "Height": h,
                                       "ColorSpace": Name("DeviceRGB"), "BitsPerComponent": 8, "ImageMask": False, "Interpolate": False}, rnd_bytes(rng, 3 * w * h), rng.choice(["none", "flate", "hex"])))
         d["SMask"] = sm
-    return doc.add(enc_stream(rng, d, rnd_bytes(rng, ncomp * w * h), rng.choice(["none", "flate", "hex", "a85", "rle", "flate+a85"])))
+    filt = rng.choice(IMAGE_FILTERS)
+    doc.features.add("imgfilter:" + filt)
+    return doc.add(enc_stream(rng, d, rnd_bytes(rng, ncomp * w * h), filt))
 
 
 def make_form(doc, rng, res=None, content=b"0 0 10 10 re f", extra=None):
@@ -123,7 +142,7 @@ def make_form(doc, rng, res=None, content=b"0 0 10 10 re f", extra=None):
         d["Resources"] = res
     if extra:
         d.update(extra)
-    return doc.add(enc_stream(rng, d, content, rng.choice(["none", "flate", "hex"])))
+    return doc.add(enc_stream(rng, d, content, rng.choice(["none", "flate", "hex", "a85", "lzw", "a85+flate", "hex+rle"])))
 
 
 def make_gs(doc, rng):
